@@ -66,10 +66,73 @@ def cells(tier, seed):
                                                       ["default", "1e-10"], QNAMES):
         out.append({"what": what, "strategy": strat, "lik": lik, "dist": "Cholesky" if what == "bound" else "Natural",
                     "objective": "ELBO", "jit": jit, "q": q})
+    for strat in ("Variational", "Unwhitened"):
+        for bs in ([2], [3], [2, 2]):
+            out.append({"what": "ngd-batch", "strategy": strat, "lik": "Gaussian", "dist": "Natural", "objective": "ELBO", "bs": bs, "q": "generic"})
     return out
 
 
 # ----------------------------------------------------------------------------------------------------------------------
+def run_ngd_batch(cell, seed, fails, notes):
+    """a batch of independent SVGPs with natural parameters: one NGD step (lr = 1) on the batch must move every element exactly as the
+    same step moves a non-batched replica of that element (the non-batched step is tied to the collapsed bound by the 'ngd' cells)"""
+    import itertools as it
+
+    from gpytorch import kernels as K
+    from gpytorch import variational as V
+
+    bs = torch.Size(cell["bs"])
+    g = util.gen(seed, "c15ngdb|" + util.jdump(cell))
+    n, M, d = 5, 3, 1
+    X, Z = util.rand(g, n, d), util.rand(g, M, d)
+    Y = util.randn(g, *bs, n)
+    ls = 0.5 + util.rand(g, *bs, 1, 1)
+    os_ = 0.5 + util.rand(g, *bs)
+    noise = 0.1 + util.rand(g, *bs, 1)
+    cls = V.UnwhitenedVariationalStrategy if cell["strategy"] == "Unwhitened" else V.VariationalStrategy
+
+    class M_(gpytorch.models.ApproximateGP):
+        def __init__(self, b):
+            b = torch.Size(b)
+            vd = V.NaturalVariationalDistribution(M, batch_shape=b)
+            super().__init__(cls(self, Z.clone(), vd, learn_inducing_locations=False))
+            self.mean_module = gpytorch.means.ZeroMean()
+            self.covar_module = K.ScaleKernel(K.RBFKernel(batch_shape=b), batch_shape=b)
+            self.lik = gpytorch.likelihoods.GaussianLikelihood(batch_shape=b)
+
+        def forward(self, x):
+            return gpytorch.distributions.MultivariateNormal(self.mean_module(x), self.covar_module(x))
+
+    def step(model, y, lsv, osv, nzv, nat):
+        model.covar_module.base_kernel.lengthscale = lsv
+        model.covar_module.outputscale = osv
+        model.lik.noise = nzv
+        model.train()
+        model(X)  # initialise the variational parameters
+        vd = model.variational_strategy._variational_distribution
+        with torch.no_grad():
+            vd.natural_vec.copy_(nat[0])
+            vd.natural_mat.copy_(nat[1])
+        mll = VariationalELBO(model.lik, model, num_data=n)
+        opt = gpytorch.optim.NGD(model.variational_parameters(), num_data=n, lr=1.0)
+        opt.zero_grad()
+        (-mll(model(X), y)).sum().backward()
+        opt.step()
+        return vd.natural_vec.detach().clone(), vd.natural_mat.detach().clone()
+
+    A = 0.3 * util.randn(g, *bs, M, M)
+    nat = (util.randn(g, *bs, M), -0.5 * torch.eye(M, dtype=F64) - 0.2 * (A @ A.mT))
+    with fails.guard("ngd-batch"):
+        torch.manual_seed(1)
+        bv, bm = step(M_(bs), Y, ls, os_, noise, nat)
+        for b in it.product(*[range(k) for k in bs]):
+            torch.manual_seed(1)
+            rv, rm = step(M_(()), Y[b], ls[b], os_[b], noise[b], (nat[0][b], nat[1][b]))
+            fails.check_close("ngd-batch", bv[b], rv, 1e-8, 1e-8, f"natural_vec of batch element {b} after one NGD step != non-batched replica")
+            fails.check_close("ngd-batch", bm[b], rm, 1e-8, 1e-8, f"natural_mat of batch element {b} after one NGD step != non-batched replica")
+    notes["ops"] = 2 * (1 + bs.numel())
+
+
 class ConstLoss(AddedLossTerm):
     def __init__(self, c):
         self.c = c
@@ -221,6 +284,12 @@ def run_cell(cell, seed):
     util.own_rng(seed, "c15-lib|" + util.jdump(cell))
     jit = 1e-10 if cell.get("jit") == "1e-10" else JIT_DEFAULT
     notes = {}
+    if cell["what"] == "ngd-batch":
+        run_ngd_batch(cell, seed, fails, notes)
+        for f in fails:
+            f["features"] = dict(feats, **f.get("features", {}))
+        return {"fails": fails[:6], "sig": "ngd-batch:" + ",".join(sorted({f["sub"] for f in fails})), "features": feats,
+                "ops": notes.get("ops", 1), "nontrivial": True, "notes": notes}
     with contextlib.ExitStack() as st:
         if cell.get("jit") == "1e-10":
             st.enter_context(S.variational_cholesky_jitter(double_value=1e-10))
